@@ -476,7 +476,10 @@ func (ex *Exec) timeFormat(t TimeV, layout string) *Str {
 }
 
 // parseTagged implements time.Parse(layout, t.Format(layout)): the value truncated to the layout's fields.
-func (ex *Exec) parseTagged(tag *fmtTag) TimeV {
+func (ex *Exec) parseTagged(tag *fmtTag) TimeV { return ex.parseTaggedIn(tag, locUTC) }
+
+// parseTaggedIn: the layout's fields of the rendered time, read in defLoc when the layout writes no offset.
+func (ex *Exec) parseTaggedIn(tag *fmtTag, defLoc *LocV) TimeV {
 	b := ex.b
 	toks, _ := splitLayout(tag.layout)
 	has := map[string]bool{}
@@ -518,7 +521,7 @@ func (ex *Exec) parseTagged(tag *fmtTag) TimeV {
 	case has[".000000000"]:
 		ns = t.nsec
 	}
-	loc := locUTC
+	loc := defLoc
 	if has["Z07:00"] || has["-07:00"] {
 		off := ex.locOffset(t.loc)
 		// the printed offset drops seconds
@@ -748,6 +751,23 @@ func init() {
 		t := ex.asTime(args[0])
 		layout := ex.wantConcrete(args[1], "time.Format layout")
 		return ex.timeFormat(t, layout)
+	})
+	// ParseInLocation: as Parse, but a text without an offset is read in the given location (fixed zones and UTC; a text
+	// *with* an offset keeps it, as a fixed zone - whether it is also the location's own is a matter of the zone's name)
+	reg("time.ParseInLocation", func(ex *Exec, fr *frame, pos token.Pos, args []value) value {
+		layout := ex.wantConcrete(args[0], "time.ParseInLocation layout")
+		s := args[1].(*Str)
+		loc := ex.asLoc(args[2])
+		if loc == nil {
+			ex.oblige("panic", "time: missing Location in call to ParseInLocation", fr, pos, ex.b.False)
+		}
+		if loc.kind == "local" {
+			panic(ex.unsupported("time.ParseInLocation in the process's Local zone"))
+		}
+		if s.tag != nil && s.tag.layout == layout {
+			return tuple{ex.parseTaggedIn(s.tag, loc), iface{}}
+		}
+		panic(ex.unsupported("time.ParseInLocation of a text that is not a rendering in the same layout"))
 	})
 	reg("time.Parse", func(ex *Exec, fr *frame, pos token.Pos, args []value) value {
 		layout := ex.wantConcrete(args[0], "time.Parse layout")
